@@ -320,6 +320,8 @@ fn run_case(case: &Case, scratch: Option<&Path>) -> Outcome {
         }
     };
     let mut counted_expect: Option<usize> = None;
+    // set when the parser got over a hard read error without losing or inventing anything
+    let mut transparent_hard = false;
     while i < max_calls {
         if count_after == Some(out.items) && ei <= expected.len() {
             // finish through Iterator::count(): every remaining line yields exactly one item
@@ -335,7 +337,7 @@ fn run_case(case: &Case, scratch: Option<&Path>) -> Outcome {
         ei += skip; // the skipped items are not observed; the one returned must be the (ei+skip)-th
         let hard_at = shared.borrow().hard_fired_at_call;
         hh = hash_combine(hh, hash_bytes(format!("{:?}", got).as_bytes()));
-        let after_hard = hard_at.map(|h| i >= h).unwrap_or(false);
+        let after_hard = hard_at.map(|h| i >= h).unwrap_or(false) && !transparent_hard;
         match &got {
             Got::Rec { .. } => out.delivered_ok += 1,
             Got::Err { line, .. } => {
@@ -345,26 +347,46 @@ fn run_case(case: &Case, scratch: Option<&Path>) -> Outcome {
             _ => {}
         }
         if after_hard {
-            // C17 says nothing about I/O errors: the failing item and everything after it are
-            // recorded for the reader of the evidence, not judged (DESIGN §5.4)
-            if hard_at != Some(i) {
-                if let Got::Rec { .. } = got {
-                    out.rows_after_hard_error += 1;
-                    let in_file = expected.iter().any(|e| matches!(e.exp, Expect::Rec { .. }) && judge(&e.exp, &got, 0).is_none());
-                    if !in_file {
-                        out.of_which_not_in_file += 1;
+            // C17 says nothing about what the items look like once a read has failed, so the failing
+            // item and everything after it are recorded for the reader of the evidence, not judged
+            // (DESIGN §5.4) - with one exception at the failing call itself: the failure must not be
+            // swallowed. Either the parser recovers transparently (the item is exactly the row that
+            // is due: a correct retry; judging then simply continues), or it reports an error item.
+            // An accepted row that is not the row in the file, or a silent end of the stream, is
+            // a row "accepted" from a truncated line.
+            if hard_at == Some(i) {
+                let due_ok = ei < expected.len() && !expected[ei].optional && judge(&expected[ei].exp, &got, expected[ei].line).is_none()
+                    && matches!(expected[ei].exp, Expect::Rec { .. });
+                if due_ok {
+                    transparent_hard = true;
+                } else if !matches!(got, Got::Err { .. }) && !case.file.has_corruption() {
+                    let (c, t) = row_of(ei);
+                    let kind = if got == Got::Panic { "panic" } else { "read_failure_swallowed" };
+                    out.violation = Some(Violation { kind: kind.into(), index: i, line: expected.get(ei).map(|e| e.line).unwrap_or(0),
+                        expected: json!("an error item for the failed read, or exactly the row that is due"), got: got_to_json(&got), row_class: c, row_text: t });
+                    break;
+                }
+            }
+            if !transparent_hard {
+                if hard_at != Some(i) {
+                    if let Got::Rec { .. } = got {
+                        out.rows_after_hard_error += 1;
+                        let in_file = expected.iter().any(|e| matches!(e.exp, Expect::Rec { .. }) && judge(&e.exp, &got, 0).is_none());
+                        if !in_file {
+                            out.of_which_not_in_file += 1;
+                        }
                     }
                 }
-            }
-            if got == Got::None || got == Got::Panic {
-                if got == Got::Panic {
-                    let (c, t) = row_of(ei);
-                    out.violation = Some(Violation { kind: "panic".into(), index: i, line: 0, expected: json!("no panic"), got: json!("panic"), row_class: c, row_text: t });
+                if got == Got::None || got == Got::Panic {
+                    if got == Got::Panic {
+                        let (c, t) = row_of(ei);
+                        out.violation = Some(Violation { kind: "panic".into(), index: i, line: 0, expected: json!("no panic"), got: json!("panic"), row_class: c, row_text: t });
+                    }
+                    break;
                 }
-                break;
+                i += 1;
+                continue;
             }
-            i += 1;
-            continue;
         }
         // corrupted lines: the item belongs to the corrupted line if it is an I/O-style error
         // (no line number) or an error carrying that line's number, or a record with that row's
